@@ -27,6 +27,7 @@ type GenCfg struct {
 	PVary              float64 // per leaf: a neighbour of the witness instead of the witness
 	PTestSat           float64 // per test: parameter chosen so that the witness satisfies it
 	POpts              float64 // per test: IssueCode / IssuePath / Message options
+	NoMsgOpts          bool    // never the Message option (every issue then reaches the execution's formatter)
 	PZogTag            float64 // per field: zog tag
 	NoCustom           bool
 	NoPtr              bool
@@ -287,7 +288,11 @@ func (g *Gen) genOpts() Opts {
 	case 1:
 		o.Path = pick(g, []string{"other.path", "alias", "root[0]"}, "op")
 	case 2:
-		o.Msg = pick(g, []string{"bad value", "nope"}, "om")
+		if g.Cfg.NoMsgOpts {
+			o.Path = pick(g, []string{"other.path", "alias", "root[0]"}, "op")
+		} else {
+			o.Msg = pick(g, []string{"bad value", "nope"}, "om")
+		}
 	default:
 		o.Code = "cc"
 		o.Path = "pp"
